@@ -339,6 +339,9 @@ func BuildHEIF(r *core.Rng, tiff []byte, brandChoice int) []byte {
 	item := append([]byte{0, 0, 0, 6}, []byte(ExifPrefix)...)
 	item = append(item, tiff...)
 	img := r.Bytes(r.Range(64, 1500))
+	if r.Chance(1, 4) {
+		img = r.Bytes(r.Pick(0, 0, 1, 4, 7, 8, 9, 15, 16)) // the Exif item at (or right after) the start of mdat
+	}
 	mdatPayload := append(append([]byte{}, img...), item...)
 	mdatPayload = append(mdatPayload, r.Bytes(r.Range(0, 300))...)
 	// iloc v0, offset_size 4, length_size 4, base_offset_size 0; offsets patched after layout
